@@ -8,6 +8,7 @@ Inductive case :=
 | CFwd (ct : colty) (v : lvalue) (class : nat) (g : gval)       (* NativeToOvs *)
 | CBack (ct : colty) (g : gval) (class : nat) (v : lvalue)      (* OvsToNative *)
 | CRow (cols : list column) (m : nmodel) (class : nat) (r : list (sym * gval))                 (* Mapper.NewRow *)
+| CRowF (cols : list column) (m : nmodel) (fs : list sym) (class : nat) (r : list (sym * gval)) (* Mapper.NewRow with explicit fields *)
 | CGet (cols : list column) (r : list (sym * gval)) (m0 : nmodel) (class : nat) (m' : nmodel). (* Mapper.GetRowData *)
 
 Definition FUEL := 64%nat.
@@ -55,6 +56,12 @@ Definition check (c : case) : nat :=
       end
   | CRow cols m class r =>
       match new_row (mkTable 0%N cols [] true) m with
+      | Ok r' => if Nat.eqb class 0 then (if geqv FUEL (GObj r') (GObj r) then 0 else 6) else 5
+      | Err _ => if Nat.eqb class 1 then 0 else 5
+      | Panic => 5
+      end
+  | CRowF cols m fs class r =>
+      match new_row_fields (mkTable 0%N cols [] true) m fs with
       | Ok r' => if Nat.eqb class 0 then (if geqv FUEL (GObj r') (GObj r) then 0 else 6) else 5
       | Err _ => if Nat.eqb class 1 then 0 else 5
       | Panic => 5
